@@ -33,6 +33,10 @@ type TimerStep struct {
 type TimerSchedule struct {
 	Def   int         `json:"def"`
 	Steps []TimerStep `json:"steps"`
+	// Race > 0: the first clock change is not held back until the timer has armed itself but
+	// issued from another goroutine at the moment the timer is created (after a short spin of
+	// Race x 600 iterations): the clock jumps while the timer goroutine is arming
+	Race int `json:"race"`
 }
 
 // TmRec is one record of a timer run.
@@ -110,6 +114,23 @@ func TimerRun(run int, defs []TimerDef, sc TimerSchedule, T time.Duration) []TmR
 	ctx, cancel := context.WithCancel(context.Background())
 	defer cancel()
 	add(TmRec{Ev: "init"})
+	raced := make(chan struct{})
+	racing := sc.Race > 0 && len(sc.Steps) > 0 && sc.Steps[0].Op == "set"
+	if racing {
+		gate := make(chan struct{})
+		add(TmRec{Ev: "set", T: sc.Steps[0].T})
+		go func() {
+			defer close(raced)
+			<-gate
+			x := 0
+			for i := 0; i < sc.Race*600; i++ {
+				x += i
+			}
+			_ = x
+			mock.Set(time.Unix(int64(sc.Steps[0].T), 0))
+		}()
+		close(gate)
+	}
 	ch, err := timer.New(ctx, mock, sd)
 	if err != nil {
 		return []TmRec{{Run: run, Ev: "infra", Def: sc.Def}}
@@ -143,17 +164,25 @@ func TimerRun(run int, defs []TimerDef, sc TimerSchedule, T time.Duration) []TmR
 		mu.Unlock()
 	}
 	// let the timer goroutine arm itself
-	time.Sleep(300 * time.Microsecond)
+	if !racing {
+		time.Sleep(300 * time.Microsecond)
+	}
 	cancelled := false
-	for _, st := range sc.Steps {
+	for si, st := range sc.Steps {
 		switch st.Op {
 		case "set":
 			u0 := mock.untils.Load()
 			mu.Lock()
-			add(TmRec{Ev: "set", T: st.T})
 			f0 := fires
-			mu.Unlock()
-			mock.Set(time.Unix(int64(st.T), 0))
+			if racing && si == 0 {
+				f0 = 0
+				mu.Unlock()
+				<-raced
+			} else {
+				add(TmRec{Ev: "set", T: st.T})
+				mu.Unlock()
+				mock.Set(time.Unix(int64(st.T), 0))
+			}
 			if !cancelled {
 				waitFor(st.Fires, st.Closed)
 			}
